@@ -2,11 +2,14 @@
 EXTENDS Symbols
 Repls == { <<"1">>, <<"BC">>, <<"AB">>, <<"AB", "+", "BC">> }
 \* the last two replacement texts contain backslashes (an escaped tab inside a string, a doubled backslash)
-ReplsWide == Repls \cup { <<"2">>, <<"ABC">>, <<"XAB">>, <<"(", "BC", "*", "2", ")">>, <<"\"x\\ty\"">>, <<"'\\\\'">> }
+\* ... and one is a string with two consecutive blanks inside (the replacement text is what was written, blank for blank)
+ReplsWide == Repls \cup { <<"2">>, <<"ABC">>, <<"XAB">>, <<"(", "BC", "*", "2", ")">>, <<"\"x\\ty\"">>, <<"'\\\\'">>, <<"\"a  b\"">> }
 Uses == { U(<<"AB">>), U(<<"ABC", "+", "AB">>), U(<<"XAB", "+", "BC">>), U(<<"AB", "+", "BC", "+", "ABC">>) }
 LinesCore == { D(n, r) : n \in {"AB", "BC", "ABC"}, r \in Repls } \cup Uses
 LinesWide == { D(n, r) : n \in {"AB", "BC", "ABC", "XAB"}, r \in ReplsWide } \cup Uses \cup { U(<<"BC", "*", "XAB">>) }
 NoDefs == <<>>
 \* one symbol from the ISA definition, one from the command line (the harness decides which is which)
 PreDefs == << [n |-> "BC", r |-> <<"7">>], [n |-> "XAB", r |-> <<"BC", "+", "1">>] >>
+\* a symbol the ISA definition declares with an explicit null value: defined, with an empty replacement text
+PreNull == << [n |-> "BC", r |-> <<>>] >>
 =============================================================================
